@@ -631,7 +631,7 @@ func c06Profiles() []c06Profile {
 		{name: "odd", weight: 8, share: 40, mixFlags: true, nsrc: 4, maxOps: 12, collide: 15, invalid: 8, escapes: 6, trouble: 4, keyNames: 8, exotic: 8, dupPath: 12, dupID: 12, reAdd: 20},
 		{name: "long", weight: 10, share: 20, nsrc: 4, maxOps: 25, collide: 12, invalid: 4, escapes: 4, reAdd: 3},
 		{name: "family", weight: 10, share: 10, mixFlags: false, nsrc: 2, maxOps: 12, collide: 5, invalid: 1, reAdd: 1, family: true},
-		{name: "big", weight: 2, share: 85, nsrc: 2, maxOps: 30, collide: 5, invalid: 1, reAdd: 1, big: true},
+		{name: "big", weight: 1, share: 85, nsrc: 2, maxOps: 22, collide: 5, invalid: 1, reAdd: 1, big: true},
 	}
 }
 
@@ -771,7 +771,7 @@ func (g *c06Gen) newSet(src int) []c06Def {
 
 	switch {
 	case g.pf.big:
-		n = 20 + g.r.Intn(13)
+		n = 16 + g.r.Intn(11)
 	case g.r.Intn(100) < 5:
 		n = 0
 		g.tags["gen:empty-set"] = true
@@ -1005,7 +1005,7 @@ func c06GenRun(r *vf.Rand) (c06Case, c06Obs, []string) {
 	}
 
 	if pf.big {
-		nops = 12 + r.Intn(pf.maxOps-11)
+		nops = 10 + r.Intn(pf.maxOps-9)
 	}
 
 	exists := make([]bool, nsrc)      // as far as the implementation accepted
